@@ -15,16 +15,18 @@ namespace detail {
 
 template<class Graph, class WeightMap, class CycleOutputIterator>
 struct mcb_sva_fvs_trees{
+    template<class OutputIterator>
     typename boost::property_traits<WeightMap>::value_type operator()(
-            const Graph &g, const WeightMap &weight, CycleOutputIterator out) {
+            const Graph &g, const WeightMap &weight, OutputIterator out) {
         return parmcb::mcb_sva_fvs_trees(g, weight, out);
     }
 };
 
 template<class Graph, class WeightMap, class CycleOutputIterator>
 struct mcb_sva_iso_trees{
+    template<class OutputIterator>
     typename boost::property_traits<WeightMap>::value_type operator()(
-            const Graph &g, const WeightMap &weight, CycleOutputIterator out) {
+            const Graph &g, const WeightMap &weight, OutputIterator out) {
         return parmcb::mcb_sva_iso_trees(g, weight, out);
     }
 };
